@@ -36,6 +36,8 @@ func lemmas() []lemma {
 	ls = append(ls, lemma{"urem-zext", decl8 + `(assert (not (= (bvurem ((_ zero_extend 8) a) ((_ zero_extend 8) b)) ((_ zero_extend 8) (bvurem a b)))))`})
 	ls = append(ls, lemma{"sdiv-nonneg-is-udiv", decl8 + `(assert (not (= (bvsdiv ((_ zero_extend 8) a) ((_ zero_extend 8) b)) (bvudiv ((_ zero_extend 8) a) ((_ zero_extend 8) b)))))`})
 	ls = append(ls, lemma{"srem-nonneg-is-urem", decl8 + `(assert (not (= (bvsrem ((_ zero_extend 8) a) ((_ zero_extend 8) b)) (bvurem ((_ zero_extend 8) a) ((_ zero_extend 8) b)))))`})
+	ls = append(ls, lemma{"rem-from-div-signed", decl8 + `(assert (not (= (bvsub a (bvmul (bvsdiv a b) b)) (bvsrem a b))))`})
+	ls = append(ls, lemma{"rem-from-div-unsigned", decl8 + `(assert (not (= (bvsub a (bvmul (bvudiv a b) b)) (bvurem a b))))`})
 	// 3. arithmetic on sign-extended operands at the narrowest non-overflowing width
 	ls = append(ls, lemma{"extarith-mul", decl8 + `(assert (not (= (bvmul ((_ sign_extend 24) a) ((_ sign_extend 24) b))
 		((_ sign_extend 16) (bvmul ((_ sign_extend 8) a) ((_ sign_extend 8) b))))))`})
